@@ -251,6 +251,16 @@ def worlds():
         "sets": [("s", "cost__param", (0.0, 2.0), "GaussianCovCost"), ("s", "cost", Spec("L2Cost", param=None))], "data": ("A", "Ap", "B"), "deep": True})
     W["pelt-cov"] = (lambda: {"pelt": cd.PELT(co.GaussianCovCost(), penalty_scale=0.05, min_segment_length=3)}, {
         "sets": [("pelt", "cost__param", (0.0, 2.0), "GaussianCovCost"), ("pelt", "penalty_scale", 0.5)], "data": ("A", "Ap", "B")})
+    # minimum size of the covariance cost depends on the number of columns of its LAST fit: detectors re-used on
+    # narrower data, and detectors sharing such a cost
+    W["pelt-cov-msl2"] = (lambda: {"pelt": cd.PELT(co.GaussianCovCost(), penalty_scale=0.05, min_segment_length=2)}, {
+        "sets": [("pelt", "penalty_scale", 0.5)], "data": ("B", "A", "Ap")})
+
+    def cov_shared():
+        c = co.GaussianCovCost()
+        return {"c": c, "pelt": cd.PELT(c, penalty_scale=0.05, min_segment_length=2), "mw": cd.MovingWindow(c, bandwidth=2, threshold_scale=0.1)}
+
+    W["cov-cost-shared"] = (cov_shared, {"sets": [], "data": ("B", "A"), "no_events": ("c",)})
     W["cusum"] = (lambda: {"s": cs.CUSUM()}, {"sets": [], "data": ("A", "H", "B"), "deep": True})
     W["sbs-cusum"] = (lambda: {"sbs": cd.SeededBinarySegmentation(threshold_scale=0.3, min_segment_length=1, max_interval_length=8)}, {
         "sets": [("sbs", "growth_factor", 2.0)], "data": ("A", "H")})
@@ -733,7 +743,7 @@ class Explorer:
 _MISSING = object()
 
 
-BIG = ("shared-cost", "sta", "saving-shared", "mw-cbs-shared", "sta-mw", "two-pelt-cov", "two-pelt", "two-mw", "two-sbs", "two-cbs", "two-capa")
+BIG = ("shared-cost", "sta", "saving-shared", "mw-cbs-shared", "sta-mw", "two-pelt-cov", "two-pelt", "two-mw", "two-sbs", "two-cbs", "two-capa", "cov-cost-shared")
 
 
 def depth_for(wname, tier):
